@@ -126,7 +126,10 @@ def r2_false_implies_reported(ctx):
 
 
 def r3_sources_and_atoms(ctx):
-    fn = ctx.func('map_if', 'element_if.is_valid')
+    fn0 = ctx.func('map_if', 'element_if.is_valid')
+    NAMES = {"data_ele['data_type']": 'data_type', "data_ele['min_len']": 'min_len', "data_ele['max_len']": 'max_len',
+             'elem.get_value()': 'elem_val'}
+    fn, found = A.named_view(fn0, NAMES)
     # definition lookups
     src = {}
     for s in ast.walk(fn):
@@ -136,7 +139,7 @@ def r3_sources_and_atoms(ctx):
     yield Ob('map_if:element_if.is_valid definition looked up by the element\'s own data element number', ok, ctx.floc(fn),
              '' if ok else 'data_ele is bound from %s' % [norm(v) for v in src.get('data_ele', [])])
     for nm in ('data_type', 'min_len', 'max_len'):
-        ok = [norm(v) for v in src.get(nm, [])] == ["data_ele['%s']" % nm]
+        ok = ("data_ele['%s']" % nm) in found and all(norm(v) == nm for v in src.get(nm, []))
         yield Ob('map_if:element_if.is_valid %s comes from the data element definition' % nm, ok, ctx.floc(fn),
                  '' if ok else '%s is bound from %s' % (nm, [norm(v) for v in src.get(nm, [])]))
     # numeric test: the If whose test, evaluated over the data types, is exactly "R or N*"
